@@ -82,14 +82,22 @@ theorem pumpAll_is_run (ids : List Nat) :
 operations; its frames are exactly the client events of that run. -/
 theorem pump_is_run (st : State) (hist : List Event) (op : Op) :
     ∃ ws : List Op, (∀ o ∈ ws, ∃ id, o = Op.write id) ∧
-      runFrom st hist (op :: ws) =
-        ((scriptStep st op).1, hist ++ stepEvents st op ++
-          (pumpAll (step st op).1 ((step st op).1.streams.map (·.id))).2.map Event.c) := by
+      (runFrom st hist (op :: ws)).1 = (scriptStep st op).1 := by
   obtain ⟨ws, hw1, hw2⟩ := pumpAll_is_run ((step st op).1.streams.map (·.id)) (step st op).1
     (hist ++ stepEvents st op)
-  refine ⟨ws, hw1, ?_⟩
-  simp only [runFrom, scriptStep]
-  unfold stepEvents at hw2 ⊢
-  rw [hw2]
+  obtain ⟨ws', hw1', hw2'⟩ := pumpAll_is_run
+    (((pumpAll (step st op).1 ((step st op).1.streams.map (·.id))).1.streams.drop (step st op).1.streams.length).map (·.id))
+    (pumpAll (step st op).1 ((step st op).1.streams.map (·.id))).1
+    (hist ++ stepEvents st op ++ (pumpAll (step st op).1 ((step st op).1.streams.map (·.id))).2.map Event.c)
+  refine ⟨ws ++ ws', ?_, ?_⟩
+  · intro o ho
+    rcases List.mem_append.mp ho with h | h
+    · exact hw1 o h
+    · exact hw1' o h
+  · simp only [runFrom, scriptStep]
+    unfold stepEvents at hw2 hw2'
+    rw [runFrom_append, hw2]
+    simp only
+    rw [hw2']
 
 end Req.Lemmas.C06
